@@ -303,3 +303,11 @@ U("cJSON_DeleteItemFromObjectCaseSensitive", "cjson", "harness/cJSON_DeleteItemF
 U("cJSON_ReplaceItemInArray", "cjson", "harness/cJSON_ReplaceItemInArray.c", enforce="cJSON_ReplaceItemInArray", shape="U", props=["C06", "C20"], covers=2, defs=["-DVF_RVP_VIEW"], replace=["get_array_item", "cJSON_ReplaceItemViaPointer"])
 U("cJSON_ReplaceItemInObject", "cjson", "harness/cJSON_ReplaceItemInObject.c", enforce="cJSON_ReplaceItemInObject", shape="U", props=["C06", "C20"], covers=1, defs=["-DVF_WRAPPER_VIEWS"], replace=["replace_item_in_object/replace_item_in_object_cv"])
 U("cJSON_ReplaceItemInObjectCaseSensitive", "cjson", "harness/cJSON_ReplaceItemInObjectCaseSensitive.c", enforce="cJSON_ReplaceItemInObjectCaseSensitive", shape="U", props=["C06", "C20"], covers=1, defs=["-DVF_WRAPPER_VIEWS"], replace=["replace_item_in_object/replace_item_in_object_cv"])
+U("duplicate_depth", "cjson", "harness/duplicate_depth.c", no_contract=True, shape="U", funcs=["cJSON_Duplicate_rec"], props=["C11", "C08"], covers=2, unwind=4,
+  unwindset=["cJSON_Duplicate_rec:3", "cJSON_Duplicate_rec.0:3", "cJSON_Delete:3", "cJSON_Delete.0:3", "vf_block.0:6"],
+  note="nesting-limit clause for every node with a child (incl. a self-cycle); at most one level of real recursion is reachable, so the unwinding is complete")
+for _sc in range(4):
+    U("u_genmerge_b_%d" % _sc, "both", "harness/u_genmerge_b.c", no_contract=True, shape="B", bound="enumerated scenario %d (see harness), member values in {0,1,2}" % _sc,
+      funcs=["generate_merge_patch", "cJSONUtils_GenerateMergePatchCaseSensitive", "merge_patch", "sort_object", "compare_json"], props=["C18"], covers=1, unwind=8,
+      unwindset=_AP_UW + ["generate_merge_patch:4", "generate_merge_patch.0:5", "merge_patch:4", "merge_patch.0:4", "cJSON_Compare:4", "cJSONUtils_GenerateMergePatch:3"], timeout=(900, 3000),
+      defs=["-DGM_SCEN=%d" % _sc, "-Dh_u_genmerge_b=h_u_genmerge_b_%d" % _sc], mem=30, tiers=())
